@@ -7639,6 +7639,16 @@ let rec tabs0 = function
 let w_safename s =
   if str_forallb is_safechar s then s else quote s
 
+(** val clafer_keywords : char list list **)
+
+let clafer_keywords =
+  ('a'::('b'::('s'::('t'::('r'::('a'::('c'::('t'::[])))))))) :: (('x'::('o'::('r'::[]))) :: (('o'::('r'::[])) :: (('m'::('u'::('x'::[]))) :: (('n'::('o'::('t'::[]))) :: []))))
+
+(** val cl_safename : char list -> char list **)
+
+let cl_safename s =
+  if existsb (eqb0 s) clafer_keywords then quote s else w_safename s
+
 type sxf =
 | SxF of char list * sxitem list
 and sxitem =
@@ -8095,9 +8105,9 @@ let clafer_type = function
 
 let rec clafer_tree p f = match f with
 | Feature (i, rs) ->
-  Clf ((clafer_group f), (w_safename i.f_name),
+  Clf ((clafer_group f), (cl_safename i.f_name),
     (negb (Nat.eqb (length i.f_attrs) O)), (feat_is_optional p f),
-    (map (fun a -> ((w_safename a.a_name), (clafer_value a.a_default)))
+    (map (fun a -> ((cl_safename a.a_name), (clafer_value a.a_default)))
       i.f_attrs),
     (flat_map (fun r ->
       let Relation (_, _, cs) = r in map (clafer_tree (Some f)) cs) rs))
@@ -8144,7 +8154,7 @@ let rec clafer_node = function
                     | None -> Err KeyError)
             | Err e -> Err e)
          | Err e -> Err e))
-   | _ -> Ok (CxVar (w_safename (data_str d))))
+   | _ -> Ok (CxVar (cl_safename (data_str d))))
 
 (** val clafer_attrdecls : fm -> (char list * char list) list **)
 
@@ -8157,7 +8167,7 @@ let clafer_attrdecls m =
   let d =
     fold_left (fun acc kv -> dict_set acc (fst kv) (VStr (snd kv))) all []
   in
-  map (fun kv -> ((w_safename (fst kv)),
+  map (fun kv -> ((cl_safename (fst kv)),
     (match snd kv with
      | VStr s -> s
      | _ -> []))) d
@@ -8169,7 +8179,7 @@ let clafer_write m =
   | Ok cs ->
     Ok { cd_attrdecls = (clafer_attrdecls m); cd_root =
       (clafer_tree None m.root); cd_ctcs = cs; cd_instance_of =
-      (w_safename (name m.root)) }
+      (cl_safename (name m.root)) }
   | Err e -> Err e
 
 (** val cl_name : clf -> char list **)
@@ -11421,7 +11431,7 @@ let op_export_sat m =
          e_sels
            (filter (fun sel ->
              clafer_sat (fun n0 ->
-               existsb (fun s -> eqb0 (w_safename s) n0) sel) d) subsets))
+               existsb (fun s -> eqb0 (cl_safename s) n0) sel) d) subsets))
          (clafer_write m)) :: [])) :: [])))
 
 (** val d_draw : sexp -> draw option **)
